@@ -3,7 +3,8 @@
 # Adds spec/lib to the module search path through -DTLA-Library.
 MD=$1; TO=$2; shift 2
 HERE=$(cd "$(dirname "$0")/.." && pwd)
-export JAVA_TOOL_OPTIONS="-Xss512m -Xmx${VERIF_TLC_XMX:-6g} -DTLA-Library=$HERE/spec/lib:$HERE/spec ${VERIF_TLC_JOPTS:-}"
+mkdir -p "$MD/jtmp"
+# (java.io.tmpdir: TLC leaves an empty tlc-<n> directory behind per run; keep those inside the work directory)
+export JAVA_TOOL_OPTIONS="-Xss512m -Xmx${VERIF_TLC_XMX:-6g} -Djava.io.tmpdir=$MD/jtmp -DTLA-Library=$HERE/spec/lib:$HERE/spec ${VERIF_TLC_JOPTS:-}"
 export VERIF_DEBUG=${VERIF_DEBUG:-0}
-mkdir -p "$MD"
 exec timeout "$TO" tlc -noGenerateSpecTE -metadir "$MD/states" "$@"
